@@ -565,3 +565,193 @@ def event_summary(evt):
                     adm.get('reason'), evt[1]['route_index']]
         return ['tx', list(dec['ident']), dec['primary']['dest'], evt[1]['route_index'], evt[1]['size']]
     return list(evt)
+
+
+# --------------------------------------------------------------------------- bridge to coq/Model/BpAgent.v
+#
+# A *case* is a JSON-able dict:
+#   node_id, rx_routes=[[regex, action], ...], tx_routes=[{pattern, cl_type, mtu}, ...], now_ms,
+#   hist=[bundle spec (see encode_bundle) with optional model-only keys:
+#         'sec' (reason code the BPSec steps are expected to produce if the bundle is to be delivered,
+#                known from how the bundle was built), 'prep' (0/1/2, see Model/BpAgent.v b_prep)]
+# The same case is run through the real agent (run_case_impl) and rendered as Coq terms (coq_case) for
+# BpAgent.run_render; canon_impl() brings the driver's observations to the model's printed shape.
+
+ACTION_TERM = {'receive': 'ARecv', 'forward': 'AFwd', 'deliver': 'ADlv', 'delete': 'ADel'}
+SAND_GROUP_EID = 'ipn:100.1'
+
+
+class EidTable(object):
+    ''' EID string <-> number used by the model (0 = dtn:none). '''
+
+    def __init__(self):
+        self.ids = {'dtn:none': 0}
+        self.names = ['dtn:none']
+
+    def get(self, eid):
+        if eid is None:
+            eid = 'dtn:none'
+        if eid not in self.ids:
+            self.ids[eid] = len(self.names)
+            self.names.append(eid)
+        return self.ids[eid]
+
+
+def unknown_bib(num=10):
+    ''' A Block Integrity Block (type 11) whose security context id is unknown to the agent: the
+    verification step answers UNKNOWN_SEC (13) when the bundle is to be delivered. '''
+    asb = (cbor2.dumps([1]) + cbor2.dumps(99) + cbor2.dumps(0) + cbor2.dumps([1, '//sec/'])
+           + cbor2.dumps([[[1, b'x']]]))
+    return dict(type=11, num=num, data_hex=asb.hex())
+
+
+def spec_for_encode(spec):
+    out = dict(spec)
+    for key in ('sec', 'prep', 'note'):
+        out.pop(key, None)
+    if 'payload_hex' in out:
+        out['payload'] = bytes.fromhex(out.pop('payload_hex'))
+    if 'blocks' in out:
+        out['blocks'] = [dict(blk, data=(bytes.fromhex(blk['data_hex']) if 'data_hex' in blk else blk['data'])) for blk in out['blocks']]
+    return out
+
+
+def case_eids(case):
+    ''' Every EID string that can occur in the case, numbered deterministically. '''
+    tab = EidTable()
+    tab.get(case['node_id'])
+    tab.get(SAND_GROUP_EID)
+    for spec in case['hist']:
+        for key in ('src', 'dest', 'report_to'):
+            tab.get(spec.get(key))
+    return tab
+
+
+def coq_opt_pair(val):
+    return '(@None (N * N))' if val is None else '(Some (%d, %d))' % (val[0], val[1])
+
+
+def coq_bundle(spec, tab, size):
+    flags = int(spec.get('flags', 0)) & ~FLAG_IS_FRAGMENT
+    payload = spec_for_encode(spec).get('payload', b'')
+    bad = set(spec.get('bad_crc', ()))
+    sec = spec.get('sec')
+    return '(mkBundle %d %d %d %d %d %s %d %d %s %s %d %d true)' % (
+        tab.get(spec.get('src')), tab.get(spec.get('dest')), tab.get(spec.get('report_to')),
+        spec.get('time', 0), spec.get('seq', 0), coq_opt_pair(spec.get('frag')), flags, len(payload),
+        'false' if bad else 'true',
+        '(@None N)' if sec is None else '(Some %d)' % sec,
+        spec.get('prep', 0), size)
+
+
+def coq_case(case):
+    ''' -> (coq term of type (list (N*N) * agent * list bundle), EidTable) '''
+    import re
+    tab = case_eids(case)
+    matches = []
+    universe = list(tab.names)
+    rx_terms = []
+    for (idx, (pat, action)) in enumerate(case['rx_routes']):
+        rx_terms.append('(%d, %s)' % (idx, ACTION_TERM.get(action, 'AOther')))
+        comp = re.compile(pat)
+        for eid in universe:
+            if comp.match(eid) is not None:
+                matches.append('(%d, %d)' % (idx, tab.get(eid)))
+    tx_terms = []
+    for (idx, item) in enumerate(case['tx_routes']):
+        pid = 1000 + idx
+        mtu = item.get('mtu')
+        tx_terms.append('(mkTx %d %s %s)' % (pid, 'true' if item.get('cl_type', 'fake') == 'fake' else 'false',
+                                             '(@None N)' if mtu is None else '(Some %d)' % mtu))
+        comp = re.compile(item['pattern'])
+        for eid in universe:
+            if comp.match(eid) is not None:
+                matches.append('(%d, %d)' % (pid, tab.get(eid)))
+    bundles = []
+    for spec in case['hist']:
+        size = len(encode_bundle(spec_for_encode(spec)))
+        bundles.append(coq_bundle(spec, tab, size))
+
+    def lst(items, typ):
+        return '(@nil %s)' % typ if not items else '[' + '; '.join(items) + ']'
+    agent = '(mkAgent %d [%d] %s %s (@nil ident) (@nil reasm) %d 0)' % (
+        tab.get(case['node_id']), tab.get(SAND_GROUP_EID), lst(rx_terms, '(N * action)'), lst(tx_terms, 'txroute'),
+        case.get('now_ms', 800000000000))
+    term = '(%s, %s, %s)' % (lst(matches, '(N * N)'), agent, lst(bundles, 'bundle'))
+    return (term, tab)
+
+
+COQ_RUN = "(fun c : (list (N * N) * BpAgent.agent * list BpAgent.bundle) => let '(m, a, h) := c in BpAgent.run_render (BpAgent.table_matches m) a h)"
+
+
+def run_case_impl(case, extra=None):
+    ''' Run the case through the real agent. :return: (driver, [observation per input]) '''
+    drv = BpDriver(node_id=case['node_id'], rx_routes=[tuple(item) for item in case['rx_routes']],
+                   tx_routes=case['tx_routes'], clock=Clock(now_ms=case.get('now_ms', 800000000000), tick=0),
+                   **(extra or {}))
+    obs = [drv.recv(encode_bundle(spec_for_encode(spec))) for spec in case['hist']]
+    return (drv, obs)
+
+
+def _frag3(frag):
+    return [0, 0, 0] if frag is None else [1, frag[0], frag[1]]
+
+
+def canon_event(evt, tab):
+    ''' One driver event in the shape of BpAgent.render_event. '''
+    if evt[0] == 'deliver':
+        ent = evt[1]
+        ident = list(ent['ident'])
+        frag = tuple(ident[3:5]) if len(ident) == 5 else None
+        return [0, tab.get(ident[0]), ident[1], ident[2]] + _frag3(frag) + [tab.get(ent['dest'])]
+    if evt[0] == 'send_fail':
+        return [4, 1 if evt[1] else 0]
+    if evt[0] == 'tx':
+        dec = evt[1]['bundle']
+        route = evt[1]['route_index'] if evt[1]['route_index'] is not None else 999999
+        if not dec.get('ok'):
+            return [99, 0]
+        pri = dec['primary']
+        if is_status_report(dec) and dec['admin'].get('ok'):
+            adm = dec['admin']
+            stat = [adm['status'][name] for name in ('received', 'forwarded', 'delivered', 'deleted')]
+            timed = [item['time'] is not None for item in stat]
+            want = [item['asserted'] for item in stat]
+            if timed == want and any(want):
+                with_time = 1
+            elif not any(timed):
+                with_time = 0
+            else:
+                with_time = 2
+            blk_crc = set(blk['crc_type'] for blk in dec['blocks'])
+            crc = pri['crc_type'] if blk_crc == {pri['crc_type']} else 98
+            return ([3, tab.get(pri['dest']), tab.get(pri['src']), tab.get(pri['report_to']), pri['flags'], crc,
+                     pri['time'], pri['seq']] + [1 if item else 0 for item in want]
+                    + [with_time, adm['reason'], tab.get(adm['subj_src']), adm['subj_time'], adm['subj_seq'], route])
+        return [1, tab.get(pri['src']), pri['time'], pri['seq']] + _frag3(pri['frag']) + [tab.get(pri['dest']), route]
+    return [97, 0]
+
+
+def canon_impl(drv, obs_list, tab):
+    ''' Observations of a whole case in the shape printed by BpAgent.run_render, with the per-input
+    processings flattened (the model result is flattened the same way by canon_model). '''
+    per_input = []
+    for obs in obs_list:
+        per_input.append(dict(events=[canon_event(evt, tab) for evt in obs['events']], calls=len(obs['actions'])))
+    seen = []
+    for ident in drv.agent._seen_bundle_ident:
+        ident = list(ident)
+        seen.append([tab.get(ident[0]), ident[1], ident[2]] + _frag3(tuple(ident[3:5]) if len(ident) == 5 else None))
+    return dict(inputs=per_input, seen=sorted(seen), pending=len(drv.reassembly_pending()))
+
+
+def canon_model(res):
+    ''' Parsed result of BpAgent.run_render -> same shape as canon_impl. '''
+    (per_input, seen, pending) = res
+    out = []
+    for procs in per_input:
+        events = []
+        for evs in procs:
+            events.extend([list(evt) for evt in evs])
+        out.append(dict(events=events, calls=len(procs)))
+    return dict(inputs=out, seen=sorted(list(item) for item in seen), pending=pending)
